@@ -349,11 +349,11 @@ fn shape(t: &Table) -> String {
 // ------------------------------------------------------------------------------------------------
 // table generation
 
-const SCOPE_PREFIXES: [&str; 18] = [
-    "", "/", "/a", "a", "/a/", "/b", "/ab", "/a/b", "/{x}", "/{x}/", r"/{x:\d+}", "/{x:[a-z]+}", "/a/{x}", "{x}", "/{x:[^/]*}", "//", "/a{x}", "/{x}/{w}",
+const SCOPE_PREFIXES: [&str; 20] = [
+    "/{x}.a", "/a.b", "", "/", "/a", "a", "/a/", "/b", "/ab", "/a/b", "/{x}", "/{x}/", r"/{x:\d+}", "/{x:[a-z]+}", "/a/{x}", "{x}", "/{x:[^/]*}", "//", "/a{x}", "/{x}/{w}",
 ];
-const RES_PATTERNS: [&str; 28] = [
-    "", "/", "/a", "a", "/a/", "/b", "/ab", "/a/b", "/1", "/{y}", "/{y}/", r"/{y:\d+}", "/{y:[a-z]+}", "/{y}/{z}", "/a/{y}", "/{x}", "/a{y}", "/{y:[^/]*}", "/{t}*",
+const RES_PATTERNS: [&str; 32] = [
+    "/{y}.a", "/a.b", "/{y}/a.b", "/{y}.{z}", "", "/", "/a", "a", "/a/", "/b", "/ab", "/a/b", "/1", "/{y}", "/{y}/", r"/{y:\d+}", "/{y:[a-z]+}", "/{y}/{z}", "/a/{y}", "/{x}", "/a{y}", "/{y:[^/]*}", "/{t}*",
     "/a/{t}*", "{t}*", "/{y:.*}", "//", "/{y}/a", "/b/{y}", "{y}", "/{y:.+}/{z}", "/{y:a|ab}b",
 ];
 const METHODS: [&str; 3] = ["GET", "POST", "DELETE"];
@@ -564,6 +564,17 @@ fn fixed_tables() -> Vec<Table> {
             default: None,
             data: [None, None],
         },
+        // literal text with a regex metacharacter in every literal position: static list member,
+        // after the last dynamic segment, between two dynamic segments, in a dynamic scope prefix
+        Table {
+            children: vec![
+                res(1, &["/a.b", "/{y}/a.b"], vec![r(2, vec![])]),
+                scope(3, "/{x}.1", vec![res(4, &["/{y}.a"], vec![r(5, vec![])]), res(6, &["/a.{y}"], vec![r(7, vec![])])], Some(8), [None, None]),
+                res(9, &["/{y}.{z}"], vec![r(10, get())]),
+            ],
+            default: None,
+            data: [None, None],
+        },
         // a resource-level guard rejecting the first of two overlapping patterns
         Table {
             children: vec![
@@ -581,7 +592,7 @@ fn fixed_tables() -> Vec<Table> {
 // ------------------------------------------------------------------------------------------------
 // requests
 
-const TOKENS: [&str; 9] = ["/", "a", "b", "1", "%41", "%61", "%2F", "%25", "//"];
+const TOKENS: [&str; 10] = ["/", "a", "b", "1", "%41", "%61", "%2F", "%25", "//", "."];
 
 /// all paths "/" + up to `n` tokens
 fn all_paths(n: usize) -> Vec<String> {
@@ -613,7 +624,7 @@ fn req_of(path: &str, prof: usize) -> Req {
     Req { method: m.into(), path: path.into(), query: None, header: h.map(|(a, b)| (a.to_string(), b.to_string())), host: host.map(|s| s.to_string()) }
 }
 
-const RAND_TOKENS: [&str; 18] = ["/", "/", "a", "b", "ab", "1", "12", "%41", "%61", "%2F", "%2f", "%25", "%2B", "%C3%A9", "%FF", "//", "-", "%2"];
+const RAND_TOKENS: [&str; 21] = [".", ".a", "X", "/", "/", "a", "b", "ab", "1", "12", "%41", "%61", "%2F", "%2f", "%25", "%2B", "%C3%A9", "%FF", "//", "-", "%2"];
 
 fn random_req(rng: &mut Rng) -> Req {
     let n = rng.range(0, 8);
@@ -931,7 +942,7 @@ pub fn run(ctx: &Ctx, rep: &mut Reporter) {
     // Phase 2: generated tables.  Each: all short paths under every profile, every deep path under
     // a rotating profile (quick: every 4th table, others a third of them), and random requests.
     // (the number of tables is a sample size, not a space: running out of time only lowers it)
-    let ntables = ctx.share(2400, 30000);
+    let ntables = ctx.share(2400, 20000);
     let small_complete = true;
     for k in 0..ntables {
         if ctx.out_of_time() {
